@@ -235,7 +235,9 @@ def build_v_result(wmap, out, diags, vp, wd):
                             rec['clause'] = {'tag': c['tag'], 'text': (s.get('text') or [{}])[0].get('text', '').strip()[:300]}
                             # the contract of a private helper is proof scaffolding for its callers' postconditions: when it stops
                             # verifying, the code may merely have been regrouped (rule 3), it is not a violation by itself
-                            if len(c['tag'].split()) > 1 and c['tag'].split()[1].startswith('helper'):
+                            # likewise a clause whose proof rests on bit-vector hints written for the present shape of the expression
+                            # (label `bits_*`): an equivalent rewrite of the bit twiddling fails the proof, not the property
+                            if len(c['tag'].split()) > 1 and (c['tag'].split()[1].startswith('helper') or c['tag'].split()[1].startswith('bits')):
                                 rec['scaffolding'] = True
         if kind == 'precondition':
             for s in d.get('spans', []):
@@ -524,7 +526,7 @@ def decide(prop, tier, seed):
                     pr = run_kani(paired)
                     for h in paired:
                         r = pr[h['name']]
-                        if r['status'] == 'failed' and not (r.get('unwind_failure') and all('unwinding' in c['desc'] for c in r['failed_checks'])):
+                        if r['status'] == 'failed' and r['failed_checks'] and not (r.get('unwind_failure') and all('unwinding' in c['desc'] for c in r['failed_checks'])):
                             found = True
                             for c in [c for c in r['failed_checks'] if 'unwinding assertion' not in c['desc']][:3]:
                                 violations.append({'obligation': 'K:%s#%s' % (h['name'], re.sub(r'\s+', '_', c['desc'])[:120]), 'engine': 'kani', 'harness': h['name'],
@@ -597,9 +599,9 @@ def decide(prop, tier, seed):
                     pr = run_kani(paired)
                     for h in paired:
                         r = pr[h['name']]
-                        if r['status'] == 'failed' and not (r.get('unwind_failure') and all('unwinding' in c['desc'] for c in r['failed_checks'])):
+                        if r['status'] == 'failed' and r['failed_checks'] and not (r.get('unwind_failure') and all('unwinding' in c['desc'] for c in r['failed_checks'])):
                             found = True
-                            c = (r['failed_checks'] or [{'desc': 'verification failed', 'file': '', 'line': 0, 'in': ''}])[0]
+                            c = r['failed_checks'][0]
                             violations.append({'obligation': '%s#scaffolding+K:%s' % (name, h['name']), 'engine': 'kani', 'harness': h['name'],
                                                'fn': f['fn'], 'file': f['file'], 'orig_line': f['orig_line'],
                                                'message': 'Verus: %s; paired harness %s: %s' % (scaff[0]['message'][:120], h['name'], c['desc']),
@@ -652,7 +654,11 @@ def decide(prop, tier, seed):
             if r.get('unwind_failure') and all('unwinding' in c['desc'] for c in r['failed_checks']):
                 undecided.append('%s: unwinding assertion failed (bound too small for the current code)' % name)
                 continue
-            for c in r['failed_checks'] or [{'desc': 'verification failed', 'file': '', 'line': 0, 'in': ''}]:
+            if not r['failed_checks']:
+                # CBMC crashed, ran into the address-space cap or was killed: Kani prints FAILED without naming a failed check
+                undecided.append('%s: Kani reported failure without a failed check (tool failure / out of memory): %s' % (name, (r.get('raw_tail') or '')[-300:].replace('\n', ' | ')))
+                continue
+            for c in r['failed_checks']:
                 if 'unwinding assertion' in c['desc']: continue
                 violations.append({'obligation': '%s#%s' % (name, re.sub(r'\s+', '_', c['desc'])[:120]), 'engine': 'kani', 'harness': h['name'],
                                    'message': c['desc'], 'where': '%s:%s in %s' % (c['file'], c['line'], c['in']),
